@@ -410,8 +410,24 @@ pub fn inspector_balance() -> String {
 
 // ---------------------------------------------------------------- is the beneficiary paid after a reconfiguration with rewards off?
 pub fn reward_paid(op: &str) -> String {
+    if op == "all" {
+        // every reconfiguration of a handler built with rewards off that the tool knows; the beneficiary must stay unpaid after each
+        let mut out = String::new();
+        for o in ["none", "modify_spec_id", "pop_handle_register", "create_handle_generic", "evm_modify_spec_id", "builder_with_spec_id", "builder_modify_build",
+                  "builder_append_register", "builder_append_then_spec_id"] {
+            let (got, gas) = reward_paid_one(o);
+            out += &format!("[reward_paid {} coinbase_received={} gas_used={}{}] ", o, got, gas, if got.is_zero() { "" } else { " MISMATCH" });
+        }
+        return out;
+    }
+    let (got, gas) = reward_paid_one(op);
+    format!("coinbase_received={} gas_used={}", got, gas)
+}
+
+fn reward_paid_one(op: &str) -> (U256, u64) {
     use revm::primitives::TxKind;
     use revm::Evm;
+    fn noop(_h: &mut revm::handler::register::EvmHandler<'_, (), CacheDB<EmptyDB>>) {}
     let coinbase = address!("c000000000000000000000000000000000000001");
     let mut db = CacheDB::new(EmptyDB::default());
     db.insert_account_info(CALLER, AccountInfo { nonce: 0, balance: U256::from(1_000_000_000u64), code_hash: B256::default(), code: None });
@@ -434,18 +450,68 @@ pub fn reward_paid(op: &str) -> String {
         "none" => {}
         "modify_spec_id" => evm.handler.modify_spec_id(SpecId::SHANGHAI),
         "pop_handle_register" => {
-            fn noop(_h: &mut revm::handler::register::EvmHandler<'_, (), CacheDB<EmptyDB>>) {}
             evm.handler.append_handler_register_plain(noop);
             let _ = evm.handler.pop_handle_register();
         }
         "create_handle_generic" => {
             evm.handler = evm.handler.create_handle_generic::<revm::primitives::ShanghaiSpec>();
         }
+        "evm_modify_spec_id" => evm.modify_spec_id(SpecId::SHANGHAI),
+        "builder_with_spec_id" => evm = evm.modify().with_spec_id(SpecId::SHANGHAI).build(),
+        "builder_modify_build" => evm = evm.modify().modify_tx_env(|tx| tx.nonce = None).build(),
+        "builder_append_register" => evm = evm.modify().append_handler_register(noop).build(),
+        "builder_append_then_spec_id" => evm = evm.modify().append_handler_register(noop).with_spec_id(SpecId::SHANGHAI).build(),
         _ => panic!("unknown op"),
     }
     let r = evm.transact().expect("tx runs");
     let got = r.state.get(&coinbase).map(|a| a.info.balance).unwrap_or(U256::ZERO);
-    format!("coinbase_received={} gas_used={}", got, r.result.gas_used())
+    (got, r.result.gas_used())
+}
+
+/// The same transaction (it reads the beneficiary's balance) with rewards on and off, per fork: everything but the beneficiary's balance must agree.
+pub fn reward_differential() -> String {
+    use revm::primitives::TxKind;
+    use revm::Evm;
+    let coinbase = address!("c000000000000000000000000000000000000001");
+    let mut out = String::new();
+    for spec in [SpecId::BERLIN, SpecId::LONDON, SpecId::SHANGHAI, SpecId::CANCUN, SpecId::PRAGUE] {
+        let mut res = Vec::new();
+        for flag in [true, false] {
+            let mut db = CacheDB::new(EmptyDB::default());
+            db.insert_account_info(CALLER, AccountInfo { nonce: 0, balance: U256::from(1_000_000_000u64), code_hash: B256::default(), code: None });
+            // COINBASE BALANCE POP, COINBASE EXTCODESIZE POP, PUSH0-free: PUSH1 1 PUSH1 0 SSTORE, STOP
+            let code = Bytecode::new_legacy(Bytes::from_static(&[0x41, 0x31, 0x50, 0x41, 0x3b, 0x50, 0x60, 0x01, 0x60, 0x00, 0x55, 0x00]));
+            db.insert_account_info(TARGET, AccountInfo { nonce: 1, balance: U256::ZERO, code_hash: code.hash_slow(), code: Some(code) });
+            let handler: Handler<'_, revm::Context<(), CacheDB<EmptyDB>>, (), CacheDB<EmptyDB>> = Handler::mainnet_with_spec(spec, flag);
+            let mut evm = Evm::builder()
+                .with_db(db)
+                .with_handler(handler)
+                .modify_tx_env(|tx| {
+                    tx.caller = CALLER;
+                    tx.transact_to = TxKind::Call(TARGET);
+                    tx.gas_limit = 200_000;
+                    tx.gas_price = U256::from(10);
+                })
+                .modify_block_env(|b| {
+                    b.coinbase = coinbase;
+                    b.basefee = U256::from(1);
+                })
+                .build();
+            let r = evm.transact().expect("tx runs");
+            let mut accounts: Vec<String> = r.state.iter().filter(|(a, _)| **a != coinbase).map(|(a, acc)| {
+                let mut st: Vec<String> = acc.storage.iter().map(|(k, v)| format!("{k}={}", v.present_value)).collect();
+                st.sort();
+                format!("{a}:bal={} nonce={} storage={}", acc.info.balance, acc.info.nonce, st.join(","))
+            }).collect();
+            accounts.sort();
+            res.push((r.result.gas_used(), format!("{:?}", r.result.is_success()), accounts.join(";"), r.state.get(&coinbase).map(|a| a.info.balance).unwrap_or(U256::ZERO)));
+        }
+        let same = res[0].0 == res[1].0 && res[0].1 == res[1].1 && res[0].2 == res[1].2;
+        let unpaid = res[1].3.is_zero();
+        out += &format!("[reward_differential {:?} gas_on={} gas_off={} beneficiary_on={} beneficiary_off={}{}] ", spec, res[0].0, res[1].0, res[0].3, res[1].3,
+            if same && unpaid { "" } else { " MISMATCH" });
+    }
+    out
 }
 
 // ---------------------------------------------------------------- selfdestruct twice with value in between conserves ether
